@@ -458,3 +458,40 @@ Proof.
   intros N Hx. destruct (find_key_exists key l x Hx) as [y Hy]. rewrite Hy. f_equal.
   apply find_key_some in Hy as [Hy1 Hy2]. eapply NoDup_key_inj; eassumption.
 Qed.
+
+(* ------------------------------------------------------------------ *)
+(* sorted(key=uuid) is canonical on lists with pairwise distinct keys   *)
+(* ------------------------------------------------------------------ *)
+
+Lemma same_keys_eq {X} (key : X -> Z) : forall l l',
+  (forall x y, In x l -> In y l' -> key x = key y -> x = y) -> map key l = map key l' -> l = l'.
+Proof.
+  induction l as [|x l IH]; intros [|y l'] Hinj H; cbn [map] in H; try discriminate.
+  - reflexivity.
+  - injection H as H1 H2. f_equal.
+    + apply Hinj; [left; reflexivity | left; reflexivity | exact H1].
+    + apply IH; [|exact H2]. intros a b Ha Hb. apply Hinj; right; assumption.
+Qed.
+
+Lemma sort_key_map {X} (key : X -> Z) l : map key (sort (by_key key) l) = sort Z.leb (map key l).
+Proof. symmetry. apply sort_map. intros a b. reflexivity. Qed.
+
+Lemma sort_by_key_sorted {X} (key : X -> Z) l : StronglySorted (lebP Z.leb) (map key (sort (by_key key) l)).
+Proof. rewrite sort_key_map. apply sort_sorted; [apply zleb_total | apply zleb_trans]. Qed.
+
+Lemma sort_by_key_canonical {X} (key : X -> Z) l1 l2 :
+  NoDup (map key l1) -> Permutation l1 l2 -> sort (by_key key) l1 = sort (by_key key) l2.
+Proof.
+  intros N P. apply (same_keys_eq key).
+  - intros x y Hx Hy E. apply sort_In in Hx. apply sort_In in Hy.
+    apply (Permutation_in _ (Permutation_sym P)) in Hy. eapply NoDup_key_inj; eassumption.
+  - rewrite !sort_key_map.
+    assert (P' : Permutation (map key l1) (map key l2)) by (apply Permutation_map, P).
+    apply (sorted_unique (lebP Z.leb) zleb_anti).
+    + apply sort_sorted; [apply zleb_total | apply zleb_trans].
+    + apply sort_sorted; [apply zleb_total | apply zleb_trans].
+    + eapply Permutation_NoDup; [apply Permutation_sym, sort_perm | exact N].
+    + eapply Permutation_NoDup; [apply Permutation_sym, sort_perm|].
+      eapply Permutation_NoDup; [exact P' | exact N].
+    + intros x. rewrite !sort_In. split; apply Permutation_in; [exact P' | apply Permutation_sym, P'].
+Qed.
